@@ -43,9 +43,8 @@ LEVEL_NOTE = ("Trusted: Coq kernel, extraction, the package->model abstraction i
               "composition theorem is relative to py_import: attributes bound on a package by the import system are outside it (compared modulo such "
               "names; finding F5 is classified by signature); its hypotheses are evaluated by the extracted model on every generated package (they "
               "hold on about 80 %) and its conclusion is checked against the interpreter there. Docstring/labels/parameters of presented aliases are "
-              "checked on the implementation only (the model carries kinds and paths). Alias-resolution caching is over-approximated: packages where "
-              "F3 leaked an `a/b/*` pseudo-member skip (C); names whose alias chain crosses a replaced alias member, and entries whose special-case "
-              "comparison crosses one, accept either outcome (F7).")
+              "checked on the implementation only (the model carries kinds and paths). Alias-resolution caching is over-approximated: names whose "
+              "alias chain crosses a replaced alias member, and entries whose special-case comparison crosses one, accept either outcome (F7).")
 MODEL = ("Model.C05_wf", "run_C05w")
 COQ_TARGETS = ["Proofs/C05_imports.vo", "Proofs/C05_main.vo", "Proofs/C05_realw.vo", "Proofs/C05_ladder.vo"]
 RULE = ("hand-written packages (one per rule of the anchored code) and the finding witnesses; seeded random packages in three streams: flat "
@@ -1136,9 +1135,7 @@ def classify(pkg, view, oracle, ml, ms_view, dmi, leak):
                 out.append((x, None))
         else:
             # only the real traversal order is wrong: explained when the model predicts the result and reports the gap event
-            if leak and ml["f3"]:
-                out.append((x, "C05-F3"))
-            elif not dmi and (ml["f3"] or ml["dropped"] or ml["stale"] or ml["xpending"]):
+            if not dmi and (ml["f3"] or ml["dropped"] or ml["stale"] or ml["xpending"]):
                 f8 = ml["dropped"] or ml["stale"]
                 ev = {"f3": ml["f3"], "f8": f8, "xpending": ml["xpending"]}
                 only = lambda k: ev[k] and not any(ev[o] for o in ev if o != k)
@@ -1273,7 +1270,7 @@ def check_packages(ctx, pkgs, stream, direct=True):
         nontrivial = any(st[0] in ("star", "setall") for _, st in stmt_tags(pkg))
         ctx.case({"sources": case["sources"]}, nontrivial)
         # ---- (C) faithful model vs implementation (needs no interpreter: also run on packages the interpreter rejects)
-        ctx.observe("model_outcome", "crash:" + ml["error"] if ml["error"] else "f3-leak" if ml["f3"] and leak else "f3" if ml["f3"] else
+        ctx.observe("model_outcome", "crash:" + ml["error"] if ml["error"] else "pseudo-member-left" if leak else "f3" if ml["f3"] else
                     "f8-dropped" if ml["dropped"] else "f8-stale-source" if ml["stale"] else "f10-exports-pending" if ml["xpending"] else
                     "f7-replaced-alias" if ml["alts"] else "clean")
         if ml["error"] and ml["error"].startswith("model:"):
@@ -1281,9 +1278,6 @@ def check_packages(ctx, pkgs, stream, direct=True):
             dmi = []
         elif ml["unsupported"]:
             ctx.count("model_unsupported")
-            dmi = []
-        elif leak:
-            ctx.count("c_skipped_leaked_pseudo_member")
             dmi = []
         else:
             dmi = diff_model_impl(ml, view)
